@@ -153,6 +153,9 @@ def check(tier):
     for need in ('application', 'format', 'info', 'get_conversions'):
         if need not in M.funcs:
             raise AnalysisError('%s: function %s() vanished' % (FILE, need))
+    # private one-expression helpers of the script (e.g. the rendering of the two documents) are read as the expressions they return
+    from ..match import inline_expr_helpers
+    M.funcs['application'] = inline_expr_helpers(tree, M.funcs['application'])
     app = M.funcs['application']
     # ---- escape: every element returned by application() in the HTML branch, and format()'s results
     ok = M.fn_safe('format')
@@ -252,6 +255,8 @@ def check(tier):
         for n in ast.walk(r):
             if isinstance(n, ast.Call) and src(n.func) == 'dict':
                 keys |= {k.arg for k in n.keywords}
+            if isinstance(n, ast.BinOp) and isinstance(n.op, ast.Mod) and isinstance(n.right, ast.Dict):
+                keys |= {k.value for k in n.right.keys if isinstance(k, ast.Constant) and isinstance(k.value, str)}
     directives = re.findall(r'%(?:\((\w+)\)s|(.))', tpl)
     for name, other in directives:
         if name:
